@@ -172,6 +172,9 @@ class Ctx:
         self.len_vars = []           # length variables of list / table inputs (for small counter-models)
         self.ghost = {}              # ghost values exposed to the contract (e.g. selected rows of a mask filter)
         self.fn_stack = []
+        self.modular_site = None     # set while a callee's postcondition is evaluated for a call site
+        self.key_schemas = []        # smt.ForallKey assumptions (universals over dictionary keys)
+        self.key_terms = []          # string terms at which they are instantiated
 
     # ---- path condition -------------------------------------------------------------------
     @property
@@ -179,8 +182,15 @@ class Ctx:
         """obligations are emitted only once the forced prefix is consumed"""
         return len(self.decisions) >= len(self.prefix)
 
+    def hint_key(self, *terms):
+        for t in terms:
+            if not any(t.eq(u) for u in self.key_terms):
+                self.key_terms.append(t)
+
     def assume(self, f):
-        if isinstance(f, smt.Forall):
+        if isinstance(f, smt.ForallKey):
+            self.key_schemas.append(f)
+        elif isinstance(f, smt.Forall):
             self.schemas.append(f)
             if f.atom is not None:
                 self.pc.append(f.atom)
@@ -224,6 +234,17 @@ class Ctx:
             pc_, schemas_, hints_, cnts_ = self.pc[:snap[0]], self.schemas[:snap[1]], self.hint_terms[:snap[2]], self.cnt_arrays[:snap[3]]
         else:
             pc_, schemas_, hints_, cnts_ = self.pc, self.schemas, self.hint_terms, self.cnt_arrays
+        if self.key_schemas or any(z3.is_expr(t) and t.sort() == z3.StringSort() for t in extra_terms):
+            # (paths using the dictionary dialect are small: no caching, no snapshots)
+            keys = list(self.key_terms)
+            for t in extra_terms:
+                if z3.is_expr(t) and t.sort() == z3.StringSort() and not any(t.eq(u) for u in keys):
+                    keys.append(t)
+            ints = [t for t in extra_terms if not (z3.is_expr(t) and t.sort() == z3.StringSort())]
+            inst = self._instances(ints, schemas_, hints_, cnts_)
+            # two rounds: instances may mention new key terms only through the registered ones, so one round per schema suffices
+            kinst = [sch.inst(k) for sch in self.key_schemas for k in keys]
+            return list(pc_) + inst + kinst
         # the instance part depends only on (schemas, hint terms, cnt arrays, term maps, pairs, extra terms): cache it
         ckey = (len(schemas_), len(hints_), len(cnts_), len(self.term_maps), len(self.pair_terms), self.cnt_mono,
                 tuple(lift(t).get_id() for t in extra_terms))
@@ -367,8 +388,12 @@ class Ctx:
                 j = fresh_int(g.name)
                 gg = g.inst(j)
                 skolems = [j]
+            elif isinstance(g, smt.ForallKey):
+                kk = fresh(g.name, z3.StringSort())
+                gg = g.inst(kk)
+                skolems = [kk]
             elif isinstance(g, smt.Exists):
-                cands = list(self.hint_terms) + [lift(t) for t in extra_terms]
+                cands = list(self.hint_terms) + [lift(t) for t in extra_terms if not (z3.is_expr(t) and t.sort() == z3.StringSort())]
                 cands += [f(t) for f in self.term_maps for t in list(cands)]       # images under registered term maps (e.g. positions)
                 gg = z3.Or(*[g.at(t) for t in cands]) if cands else z3.BoolVal(False)
             elif isinstance(g, bool):
@@ -623,6 +648,10 @@ class Interp:
             obj = self.eval(target.value, fr)
             if isinstance(obj, Model):
                 obj.sym_setattr(self.ctx, target.attr, v)
+            elif isinstance(obj, RepoModuleRef) and f'{obj.modname}.{target.attr}' in (self.ctx.ghost.get('globals') or {}):
+                key = f'{obj.modname}.{target.attr}'
+                self.ctx.ghost['globals'][key] = v           # rebinding of a modelled module attribute
+                self.ctx.ghost.setdefault('global_rebinds', []).append((key, v))
             else:
                 raise Unsupported(f'attribute assignment on {obj!r}')
         else:
@@ -797,6 +826,10 @@ class Interp:
                     col_snap[name] = {cn: c for cn, c in tab.cols.items() if cn not in mcols[name]}
                 else:
                     fr.env[name] = self.havoc_value(fr.env[name], name)
+        for gname in spec.get('modifies_globals', ()):
+            gl = ctx.ghost.get('globals') or {}
+            if gname in gl:
+                gl[gname] = self.havoc_value(gl[gname], gname.rsplit('.', 1)[-1])
         i = fresh_int('i') if is_for else None
         if is_for:
             ctx.assume(z3.And(i >= 0, i <= n))
@@ -920,6 +953,9 @@ class Interp:
     def module_constant(self, mod, n):
         mc = getattr(self.reg, 'module_constants', {})
         key = f'{mod.name}.{n}'
+        gl = self.ctx.ghost.get('globals')
+        if gl is not None and key in gl:
+            return gl[key]           # a mutable module attribute modelled by the contract (ghost store of module state)
         if key in mc:
             src_expected, value = mc[key]
             # a modelled module constant is pinned by its source text
@@ -1596,6 +1632,8 @@ class Interp:
                 names.append(c.qualname)
             else:
                 raise Unsupported(f'isinstance against {c!r}')
+        if isinstance(x, Model) and hasattr(x, 'sym_isinstance'):
+            return x.sym_isinstance(self.ctx, names)
         tag = pytype_tag(x) if not isinstance(x, Model) else getattr(x, 'pytype', type(x).__name__)
         table = {
             'int': {'int', 'bool'}, 'float': {'float', 'npfloat'}, 'bool': {'bool'}, 'str': {'str'},
